@@ -19,6 +19,7 @@ EXPLANATION = (
     "counterparts (Default impls, DEFAULT_MINIMAL_SORT_CONFIDENCE), PySort and PyBatchSort agree."
     ' R18.5 also covers the default applied in the body of the Sort / BatchSort bindings (`method` omitted -> Mahalanobis); R18.7 also requires that each free #[pyfunction] goes through the Rust routine it is the projection of (delegate table with one reason per entry).'
     ' (R18.8) KalmanState -> BoundingBox composes KalmanState -> Universal2DBox -> BoundingBox, the two steps the Python bbox() takes.')
+EXPLANATION += ' (R18.9) the Python constructors of the four trackers forward every argument unchanged; R18.7 also requires every answer of a free #[pyfunction] to come out of the Rust routine; (R18.10) wasted-track records carry the whole history in order (rule of C13).'
 NOT_DECIDED = ["value equality Python <-> Rust for generated scripts (needs the interpreter)", "GIL handling",
                "text signatures / docstrings"]
 ASSUMPTIONS = ["pyo3 0.23 macro expansion shape (__pymethod_*__ wrappers, extract_argument_with_default)",
@@ -710,6 +711,28 @@ def free_functions(ctx, R):
             n += 1
             ctx.check(len(delegates) >= 1, R, b, fn + ':delegates', '%d call(s) into the crate' % len(delegates),
                       '#[pyfunction] %s does not call any function of the crate' % fn)
+            # every answer of the binding comes out of the Rust routine (P13): a result the binding builds itself on some
+            # path (a 'nothing to do for fewer than two boxes' fast path) applies other rules than the Rust API does
+            from lib import backward_locals
+            carrier, ccalls = set(), []
+            for c_ in b.find_calls():
+                if c_.dest is not None and (c_.name in ('with_gil', 'allow_threads') or any(c_ is d_[0] for d_ in delegates)):
+                    ccalls.append(c_)
+                    if c_.dest['l'] != 0:
+                        carrier.add(c_.dest['l'])
+            if ccalls and delegates:
+                for d_ in b.defs().get(0, []):
+                    if d_[1] not in b.live_blocks():
+                        continue
+                    if d_[0] == 'call' and any(d_[2] is c_ for c_ in ccalls):
+                        derived = True
+                    else:
+                        derived = bool(backward_locals(b, [d_]) & carrier)
+                    n += 1
+                    ctx.check(derived, R, b, fn + ':every-answer-comes-from-the-rust-routine', 'bb%d' % d_[1],
+                              '#[pyfunction] %s has a result (bb%d) that does not come out of the Rust routine it projects: on that '
+                              'path the binding answers by its own rules (e.g. a fast path that skips the validity filter of '
+                              'the Rust function)' % (fn, d_[1]), d_[3].get('ln', '') if d_[0] == 'assign' else d_[2].ln)
             want = FREE_DELEGATES.get(fn)
             if want:
                 names = {c.name for c, _ in delegates} | {c.name for ob in [b] + all_closures(F, b) for c in ob.find_calls()}
@@ -729,8 +752,48 @@ def free_functions(ctx, R):
     return n
 
 
+TRACKER_CTORS = ('trackers::sort::simple_api::Sort::new', 'trackers::sort::batch_api::BatchSort::new',
+                 'trackers::visual_sort::simple_api::VisualSort::new', 'trackers::visual_sort::batch_api::BatchVisualSort::new')
+CTOR_CONV = ('try_into', 'try_from', 'expect', 'unwrap', 'into', 'from', 'clone', 'unwrap_or', 'unwrap_or_default', 'as_ref',
+             'deref', 'to_owned', 'maha', 'iou', 'default', 'map', 'cloned', 'copied', 'unwrap_or_else')
+
+
+def tracker_constructors(ctx, R):
+    """R18.9 the Python constructors of the four trackers hand every argument to the Rust constructor as the caller gave it:
+    the like-positioned parameter through conversions only (integer width, newtype field, the documented default of a
+    missing option). A value adjusted in the binding (a shard count capped to the number of cores) makes `Sort(shards=N)`
+    another tracker than `Sort::new(N, ..)` - shard statistics, shard placement."""
+    F = ctx.F
+    n = 0
+    for tgt in TRACKER_CTORS:
+        for b in F.fn_bodies():
+            if '::python::' not in b.npath or '__pymethod' in b.npath or b.kind == 'Closure':
+                continue
+            for c in b.find_calls(tgt):
+                eb = ExprBuilder(b)
+                ctx.read(b)
+                for i in range(len(c.args)):
+                    e = eb.arg(c, i)
+                    calls = [y.name.rsplit('::', 1)[-1] for y in e.walk() if y.kind == 'call']
+                    bad = [x for x in calls if x not in CTOR_CONV]
+                    roots_ = {p_.root for p_ in e.places() if p_.root[0] == 'param'}
+                    n += 1
+                    ctx.check(not bad and roots_ == {('param', i + 1)} and not any(y.kind in ('bin', 'un') for y in e.walk()), R, b,
+                              'ctor-argument-%d-forwarded-unchanged->%s' % (i, tgt.rsplit('::', 2)[-2]), repr(e)[:80],
+                              'the Python constructor %s passes %r as argument %d of %s: expected parameter %d through conversions '
+                              'only (adjusted through %s)' % (b.npath.rsplit('::', 2)[-2], e, i, tgt, i + 1,
+                                                              bad or 'arithmetic / another parameter'), c.ln)
+    return n
+
+
 def run(ctx):
     _wiring(ctx)
+    ctx.rule('R18.9', 'the Python constructors of the four trackers forward every argument unchanged to the Rust constructor')
+    ctx.floor('R18.9', tracker_constructors(ctx, 'R18.9'), 22)
+    import metriclib
+    ctx.rule('R18.10', 'the wasted-track records the Python wrappers expose carry the whole kept history in order (conversion '
+                       'Track -> WastedSortTrack / WastedVisualSortTrack copies the deques front to back; clause R13.4 of C13)')
+    ctx.floor('R18.10', metriclib.rule_wasted_conversions(ctx, 'R18.10'), 17)
     ctx.rule('R18.1', 'getters / setters return / assign the field they name')
     ctx.floor('R18.1', getters(ctx, 'R18.1'), 47)
     ctx.rule('R18.2', 'delegation: same-named (aliased) method of the wrapped value, wrapped value as receiver')
